@@ -5,126 +5,85 @@ Property C18 — comment and whitespace rules never touch code.
 
 Part A (`append_safe_*`): the text built by `append_text_comment` (`commentText`, Model.lean), followed
 by a line break and any source `s`, is read by the reference lexer (Lex.lean) as exactly one comment
-followed by exactly the items of `s`.  False at full strength (F20, F21); proved under `H18`, which
-is exact (`append_safe_iff`); the multi-line branch is proved unconditionally.
+followed by exactly the items of `s`.  Proved at full strength (`append_safe_full`) since F20/F21 are fixed: the rule now
+uses the long-comment form for every text containing LF or CR or starting with a long-bracket opener.
 
 Part B (`code_tokens_unchanged` and friends): on the token model of src/nodes/token.rs the three rules
 change trivia only; `remove_comments` keeps exactly the comments matched by an `except` pattern
 (`isMatch` is a parameter standing for `Regex::is_match`).
 
-Part C (`append_*_lines*`): the line shift of `append_text_comment`.  With location `end` the rule
-shifts every token just as with `start` (new finding F25), so "no original line moves" is false.
+Part C (`append_*_lines*`): the line shift of `append_text_comment`: for `start` exactly the room the
+comment needs; for `end` none (`append_end_lines_full`, true since F25 is fixed).
 -/
 namespace DarkluaModel.C18
 open Lex
 
 /-! ## Part A: the appended comment cannot end early or swallow code -/
 
-/-- Full strength: every non-empty text (the empty text makes the rule a no-op), every following source. -/
-def append_safe_full : Prop :=
-  ∀ (text s : Bytes) (line : Nat), text ≠ [] → AppendSafeAt text s line
-
-/-- **The multi-line branch is safe for every text** (level search terminates with a level whose
-closer does not occur; the closer cannot occur inside the text or straddle its end). -/
-theorem append_safe_multiline (text s : Bytes) (line : Nat) (h10 : 10 ∈ text) :
-    AppendSafeAt text s line := by
+/-- **The long-comment form is safe for every text** (level search terminates with a level whose
+closer does not occur; the closer cannot occur inside the text or straddle its end). Which texts take
+this form is the rule's choice; the proof does not depend on it. -/
+theorem append_safe_long_form (text s : Bytes) (line : Nat) (h0 : text ≠ [])
+    (hl : useLongForm text = true) : AppendSafeAt text s line := by
   have hk := findLevel_spec (text.length + 1) 0 text (by omega)
   rw [closeComment_eq_closer] at hk
   have hs := multi_line_scan _ text (10 :: s) hk
   unfold AppendSafeAt
-  rw [commentText_multi text h10]
+  rw [commentText_multi text h0 hl]
   have := lexFrom_comment 45 _ (10 :: s) line hs
   simp only [List.cons_append] at this ⊢
   rw [this, lexFrom_nl]
 
-/-- Single-line branch under the hypothesis. -/
-theorem append_safe_single_line (text s : Bytes) (line : Nat) (h0 : text ≠ []) (h10 : 10 ∉ text)
-    (h13 : 13 ∉ text) (ho : longOpen? text = none) : AppendSafeAt text s line := by
+/-- The `--text` form is used only for texts without LF, without CR and not starting with a
+long-bracket opener, and is safe for them. -/
+theorem append_safe_single_line (text s : Bytes) (line : Nat) (h0 : text ≠ [])
+    (hl : useLongForm text = false) : AppendSafeAt text s line := by
+  obtain ⟨h10, h13, ho⟩ := useLongForm_false text hl
   have hs := single_line_scan text (10 :: s) h13 h10 ho (Or.inr ⟨s, rfl⟩)
   unfold AppendSafeAt
-  rw [commentText_single text h0 h10]
+  rw [commentText_single text h0 hl]
   have := lexFrom_comment 45 _ (10 :: s) line hs
   simp only [List.cons_append] at this ⊢
   rw [this, lexFrom_nl]
 
-/-- **append_safe_partial**: inside `H18`, for every text, every following source, every start line. -/
-theorem append_safe_partial (text s : Bytes) (line : Nat) (h0 : text ≠ []) (h : H18 text = true) :
-    AppendSafeAt text s line := by
-  by_cases h10 : 10 ∈ text
-  · exact append_safe_multiline text s line h10
-  · have hc : text.contains 10 = false := by simpa using h10
-    simp only [H18, hc, Bool.false_or, Bool.and_eq_true, Bool.not_eq_true', Option.isNone_iff_eq_none] at h
-    exact append_safe_single_line text s line h0 h10 (by simpa using h.1) h.2
+/-- **append_safe_full** (true since the fix of F20/F21): every non-empty text (the empty text makes the
+rule a no-op), every following source, every start line. -/
+theorem append_safe_full (text s : Bytes) (line : Nat) (h0 : text ≠ []) : AppendSafeAt text s line := by
+  cases hl : useLongForm text
+  · exact append_safe_single_line text s line h0 hl
+  · exact append_safe_long_form text s line h0 hl
 
-example : H18 [104, 105, 93, 93] = true ∧ H18 [91, 10, 93, 93] = true := by decide
-example : AppendSafeAt [104, 105, 93, 93] [49, 32, 45, 45, 120] 1 :=
-  append_safe_partial _ _ _ (by decide) (by decide)
-example : AppendSafeAt [93, 93, 10, 93, 61, 93] [49] 7 := append_safe_multiline _ _ _ (by decide)
+example : AppendSafeAt [104, 105, 93, 93] [49, 32, 45, 45, 120] 1 := append_safe_full _ _ _ (by decide)
+example : AppendSafeAt [93, 93, 10, 93, 61, 93] [49] 7 := append_safe_full _ _ _ (by decide)
+
+/-- regression (F20): text `[=[h` / `[[`, source `1` — now a closed long comment, then the code -/
+example : AppendSafeAt [91, 61, 91, 104] [49] 1 ∧ AppendSafeAt [91, 91] [49] 1 := by decide
+example : commentText [91, 91] = [45, 45, 91, 91, 10, 91, 91, 10, 93, 93] := by decide
+/-- regression (F21): text `0 CR 1` — the CR is inside a long comment -/
+example : AppendSafeAt [48, 13, 49] [] 1 ∧ AppendSafeAt [104, 13, 105] [49] 1 := by decide
 
 /-- Location `end`: the comment is the last thing in the file. It is read as exactly that one comment. -/
-theorem append_end_safe_partial (text : Bytes) (line : Nat) (h0 : text ≠ []) (h : H18 text = true) :
+theorem append_end_safe (text : Bytes) (line : Nat) (h0 : text ≠ []) :
     lexFrom line (commentText text) = [.com ⟨commentText text, line⟩] := by
-  by_cases h10 : 10 ∈ text
-  · have hk := findLevel_spec (text.length + 1) 0 text (by omega)
-    rw [closeComment_eq_closer] at hk
-    have hs := multi_line_scan _ text [] hk
-    rw [commentText_multi text h10]
+  cases hl : useLongForm text
+  · obtain ⟨h10, h13, ho⟩ := useLongForm_false text hl
+    have hs := single_line_scan text [] h13 h10 ho (Or.inl rfl)
+    rw [commentText_single text h0 hl]
     have := lexFrom_comment 45 _ [] line hs
     simp only [List.append_nil] at this
     rw [this]
     simp [lexFrom, go]
-  · have hc : text.contains 10 = false := by simpa using h10
-    simp only [H18, hc, Bool.false_or, Bool.and_eq_true, Bool.not_eq_true', Option.isNone_iff_eq_none] at h
-    have hs := single_line_scan text [] (by simpa using h.1) h10 h.2 (Or.inl rfl)
-    rw [commentText_single text h0 h10]
+  · have hk := findLevel_spec (text.length + 1) 0 text (by omega)
+    rw [closeComment_eq_closer] at hk
+    have hs := multi_line_scan _ text [] hk
+    rw [commentText_multi text h0 hl]
     have := lexFrom_comment 45 _ [] line hs
     simp only [List.append_nil] at this
     rw [this]
     simp [lexFrom, go]
 
 example : lexFrom 3 (commentText [120, 10, 93, 93]) = [.com ⟨commentText [120, 10, 93, 93], 3⟩] :=
-  append_end_safe_partial _ _ (by decide) (by decide)
-
-/-- F20: text `[[`, following source `1`: an unfinished long comment swallows the code.
-    F21: text `0\r1`: the comment ends at the CR and `1` is read as code. -/
-theorem append_safe_full_false : ¬ append_safe_full := by
-  intro h
-  have := h [91, 91] [49] 1 (by decide)
-  revert this
-  decide
-
-theorem append_safe_F20_witness : ¬ AppendSafeAt [91, 61, 91, 104] [49] 1 := by decide
-theorem append_safe_F21_witness : ¬ AppendSafeAt [48, 13, 49] [] 1 := by decide
-
-example : H18 [91, 61, 91, 104] = false ∧ H18 [48, 13, 49] = false := by decide
-
-/-- `H18` is sufficient, not necessary, in its opener clause: a text that is exactly one complete long
-bracket (`[[x]]`) is outside `H18` and still safe (`--[[x]]` is a closed long comment). -/
-example : H18 [91, 91, 120, 93, 93] = false ∧ AppendSafeAt [91, 91, 120, 93, 93] [49] 1 := by decide
-
-/-- Necessity of the CR clause of `H18` (F21 in general): a single-line text without opener that
-contains a CR is *never* safe, whatever follows — the comment the lexer reads stops at the CR. -/
-theorem append_unsafe_cr (text s : Bytes) (line : Nat) (h10 : 10 ∉ text) (h13 : 13 ∈ text)
-    (ho : longOpen? text = none) : ¬ AppendSafeAt text s line := by
-  have h0 : text ≠ [] := by intro h; subst h; simp at h13
-  obtain ⟨x, y, hxy⟩ := List.append_of_mem h13
-  have hll : lineLen (text ++ 10 :: s) ≤ x.length := by
-    rw [hxy]; simpa using lineLen_cr x (y ++ 10 :: s)
-  have hlen : x.length < text.length := by rw [hxy]; simp
-  have hs : scan [] 45 (45 :: (text ++ 10 :: s)) = ⟨.comment, 1 + lineLen (text ++ 10 :: s), []⟩ := by
-    simp [scan, isSpace, scanComment, longOpen_append_nl text s ho]
-  unfold AppendSafeAt
-  rw [commentText_single text h0 h10]
-  simp only [lexFrom, List.cons_append, List.length_cons]
-  rw [go_comment hs]
-  intro h
-  have h1 := (List.cons.inj h).1
-  simp only [Item.com.injEq, Comment.mk.injEq, List.cons.injEq, true_and, and_true] at h1
-  have h2 := congrArg List.length h1
-  simp only [List.length_take, List.length_cons, List.length_append] at h2
-  omega
-
-example : ¬ AppendSafeAt [104, 13, 105] [49] 1 := append_unsafe_cr _ _ _ (by decide) (by decide) (by decide)
+  append_end_safe _ _ (by decide)
 
 /-- The level search of the multi-line branch: it returns the least level whose closer does not occur. -/
 theorem level_search_correct (text : Bytes) :
@@ -284,13 +243,14 @@ theorem appendTextComment_code (loc : AppendLocation) (content : Bytes) (f : Fil
   simp only [appendTextComment]
   split
   · rfl
-  · rw [attachComment_code]
-    exact mapTokens_code _ (by intro t; rfl) f
+  · cases loc
+    · simp only [attachComment_code]
+      exact mapTokens_code _ (by intro t; rfl) f
+    · simp only [attachComment_code]
 
-/-- The line numbers after `append_text_comment`: every numbered code token is shifted by
-`lines().count()` of the comment, **whatever the location**. -/
-theorem appendTextComment_lines (loc : AppendLocation) (content : Bytes) (f : File) (h0 : content ≠ []) :
-    (appendTextComment loc content f).codeLines
+/-- Location `start`: every numbered code token is shifted by `lines().count()` of the comment. -/
+theorem appendTextComment_lines (content : Bytes) (f : File) (h0 : content ≠ []) :
+    (appendTextComment .start content f).codeLines
       = f.codeLines.map (Option.map (· + linesCount (commentText content))) := by
   unfold appendTextComment
   simp only [commentText_nonempty content h0, Bool.false_eq_true, ↓reduceIte]
@@ -315,32 +275,25 @@ theorem linesCount_commentText_pos (content : Bytes) (h0 : content ≠ []) :
         | nil => simp
         | cons d u => simpa using ih (by simp)
   apply nonempty_pos
-  by_cases h10 : 10 ∈ content
-  · rw [commentText_multi content h10]; simp
-  · rw [commentText_single content h0 h10]; simp
+  cases hl : useLongForm content
+  · rw [commentText_single content h0 hl]; simp
+  · rw [commentText_multi content h0 hl]; simp
 
-/-- "With location `end` no original line moves": full statement. -/
-def append_end_lines_full : Prop :=
-  ∀ (content : Bytes) (f : File), (appendTextComment .end content f).codeLines = f.codeLines
-
-/-- F25: it is false — `print` on line 1, text `x` at the end: the token is moved to line 2. -/
-theorem append_end_lines_full_false : ¬ append_end_lines_full := by
-  intro h
-  have := h [120] ⟨[⟨[112], some 1, [], []⟩], [], none⟩
-  revert this
-  decide
-
-/-- What does hold: only the empty text (rule is a no-op) leaves the lines alone … -/
-theorem append_end_lines_partial (f : File) (content : Bytes) (h : content.isEmpty = true) :
+/-- **append_end_lines_full** (true since the fix of F25): with location `end` no original line moves —
+any text, any file. -/
+theorem append_end_lines_full (content : Bytes) (f : File) :
     (appendTextComment .end content f).codeLines = f.codeLines := by
-  have : content = [] := by simpa using h
-  subst this
-  simp [appendTextComment, commentText]
+  simp only [appendTextComment]
+  split
+  · rfl
+  · exact attachComment_codeLines _ _ _
 
-example : (appendTextComment .end [] sampleFile).codeLines = sampleFile.codeLines :=
-  append_end_lines_partial _ _ rfl
+/-- regression (F25): `p` on line 1, text `x` at the end: the token stays on line 1 -/
+example : (appendTextComment .end [120] ⟨[⟨[112], some 1, [], []⟩], [], none⟩).codeLines = [some 1] := by decide
+example : (appendTextComment .end [120, 10, 121] sampleFile).codeLines = sampleFile.codeLines :=
+  append_end_lines_full _ _
 
-/-- … and for location `start` the shift is exactly what makes room for the comment: the number of
+/-- For location `start` the shift is exactly what makes room for the comment: the number of
 LF in the comment plus the one line break written after it. -/
 theorem append_start_shift (content : Bytes) (h0 : content ≠ []) :
     linesCount (commentText content) = countNl (commentText content) + 1 := by
@@ -354,23 +307,24 @@ theorem append_start_shift (content : Bytes) (h0 : content ≠ []) :
       · rw [ih]; omega
       · have : (t ++ [c]).isEmpty = false := by cases t <;> rfl
         simp only [this, Bool.false_eq_true, ↓reduceIte, ih]; omega
-  by_cases h10 : 10 ∈ content
-  · rw [commentText_multi content h10]
+  cases hl : useLongForm content
+  · have h10 := (useLongForm_false content hl).1
+    rw [commentText_single content h0 hl]
+    obtain ⟨l, c, hlc⟩ : ∃ l c, content = l ++ [c] := by
+      refine ⟨content.dropLast, content.getLast h0, ?_⟩
+      exact (List.dropLast_concat_getLast h0).symm
+    have hc : c ≠ 10 := by
+      intro hc; apply h10; rw [hlc, hc]; simp
+    have : (45 :: 45 :: content : Bytes) = (45 :: 45 :: l) ++ [c] := by rw [hlc]; simp
+    rw [this]; exact key _ c hc
+  · rw [commentText_multi content h0 hl]
     have e : ∀ k, (45 :: 45 :: 91 :: (List.replicate k 61 ++ 91 :: 10 :: (content ++ 10 :: closer k)) : Bytes)
         = (45 :: 45 :: 91 :: (List.replicate k 61 ++ 91 :: 10 :: (content ++ 10 :: 93 :: List.replicate k 61))) ++ [93] := by
       intro k; simp [closer]
     rw [e]; exact key _ 93 (by decide)
-  · rw [commentText_single content h0 h10]
-    obtain ⟨l, c, hl⟩ : ∃ l c, content = l ++ [c] := by
-      refine ⟨content.dropLast, content.getLast h0, ?_⟩
-      exact (List.dropLast_concat_getLast h0).symm
-    have hc : c ≠ 10 := by
-      intro hc; apply h10; rw [hl, hc]; simp
-    have : (45 :: 45 :: content : Bytes) = (45 :: 45 :: l) ++ [c] := by rw [hl]; simp
-    rw [this]; exact key _ c hc
 
 example : (appendTextComment .start [120] sampleFile).codeLines = [some 2, some 2]
-    ∧ (appendTextComment .end [120] sampleFile).codeLines = [some 2, some 2]
+    ∧ (appendTextComment .end [120] sampleFile).codeLines = [some 1, some 1]
     ∧ (appendTextComment .end [120] sampleFile).code = sampleFile.code := by decide
 
 end DarkluaModel.C18
